@@ -98,6 +98,13 @@ impl LKHSearch {
         // restore original unassigned jobs
         new_solution.solution.unassigned = orig_solution.solution.unassigned.clone();
 
+        // NOTE: jobs (e.g. optional breaks) which were dropped by the repair are kept as required/ignored:
+        // when an original route is restored, they are assigned again and must not stay pending
+        let assigned: HashSet<_> =
+            new_solution.solution.routes.iter().flat_map(|route_ctx| route_ctx.route().tour.jobs().cloned()).collect();
+        new_solution.solution.required.retain(|job| !assigned.contains(job));
+        new_solution.solution.ignored.retain(|job| !assigned.contains(job));
+
         // recalculate solution state if we do
         new_solution.restore();
 
